@@ -935,6 +935,11 @@ class Text(JupyterMixin):
 
         text = self.plain
         text_length = len(text)
+        # negative offsets count from the end, as they do when the text is sliced
+        _offsets = [
+            offset if offset >= 0 else max(0, text_length + offset)
+            for offset in _offsets
+        ]
         divide_offsets = [0, *_offsets, text_length]
         line_ranges = list(zip(divide_offsets, divide_offsets[1:]))
 
